@@ -60,6 +60,7 @@ bool OneshotAlarm::calculateNextLocalTimeSec(uint32_t curr_local_ts, uint32_t &n
 
 void OneshotAlarm::onTimeExpired() {
   state_ = State::kInited;
+  fired_utc_sec_ = target_utc_sec_;
 
   ++cb_level_;
   if (cb_)
